@@ -1,6 +1,7 @@
 import GoldModel.Props.C18
 import GoldModel.Drive.Common
 import GoldModel.Drive.Sym
+-- @mode symspec Gold.Drive.SymSpecMode.run
 /-! driver mode `symspec`: the *specification* of C18 evaluated on the same case lines
     (insertion histories + `Spec.*`), used as the implementation-level oracle. -/
 namespace Gold.Drive.SymSpecMode
